@@ -163,6 +163,10 @@ func (s *Server) handleChannel(ctx context.Context, sshConn gossh.Conn,
 
 	if err := s.handleRequests(ctx, sshConn, requests, channel, user); err != nil {
 		dlog.Server.Error(user, err)
+		// Nobody reads the channel's requests any more. Keep discarding them: a
+		// request which can't be queued blocks the whole connection, its end
+		// would never be noticed and its connection slot never be given back.
+		go gossh.DiscardRequests(requests)
 		sshConn.Close()
 	}
 }
